@@ -10,12 +10,38 @@ import (
 )
 
 // Verify encodes fn against its contract and returns the obligations.
-func (p *Program) Verify(fn *ssa.Function, fc *FuncContract) (enc *Encoder) {
-	mode := ModeInt
-	if fc != nil && fc.Mode == "bv" {
-		mode = ModeBV
+// modesOf lists the arithmetic modes a contract is verified in (first = primary: owns nopanic and frame).
+func modesOf(fc *FuncContract) []Mode {
+	var ms []Mode
+	if fc != nil {
+		for _, f := range strings.Fields(fc.Mode) {
+			switch f {
+			case "bv":
+				ms = append(ms, ModeBV)
+			case "int":
+				ms = append(ms, ModeInt)
+			}
+		}
 	}
-	e := &Encoder{prog: p, fn: fn, fc: fc, mode: mode, c: NewCtx(mode, p.specs), vals: map[ssa.Value]Val{},
+	if len(ms) == 0 {
+		ms = []Mode{ModeInt}
+	}
+	return ms
+}
+
+// clauseInMode: a clause tagged [bv] or [int] is only checked in that mode.
+func (e *Encoder) clauseInMode(c Clause) bool {
+	switch c.Tag {
+	case "bv":
+		return e.mode == ModeBV
+	case "int":
+		return e.mode == ModeInt
+	}
+	return true
+}
+
+func (p *Program) Verify(fn *ssa.Function, fc *FuncContract, mode Mode, primary, dual bool) (enc *Encoder) {
+	e := &Encoder{prog: p, fn: fn, fc: fc, mode: mode, primary: primary, dual: dual, c: NewCtx(mode, p.specs), vals: map[ssa.Value]Val{},
 		pcs: map[*ssa.BasicBlock]string{}, exit: map[*ssa.BasicBlock]*State{}, counts: map[string]int{},
 		labels: map[string]*Env{}, ghost: map[string]Val{}, pkg: fn.Pkg.Pkg,
 		siteCounts: map[string]int{}, siteHit: map[string]bool{}, closures: map[string]*ssa.MakeClosure{}, arrSlices: map[string]arrSlice{},
@@ -335,6 +361,9 @@ func (e *Encoder) loopHeader(li *loopInfo, b *ssa.BasicBlock, st *State, pc stri
 	if li.spec != nil {
 		env := e.envAt(st, b, nil)
 		for _, inv := range li.spec.Invariants {
+			if !e.clauseInMode(inv) {
+				continue
+			}
 			s, err := env.ElabBool(inv.E)
 			if err != nil {
 				e.errs = append(e.errs, fmt.Sprintf("loop %d invariant %q: %v", li.ord, inv.Text, err))
@@ -350,8 +379,12 @@ func (e *Encoder) loopHeader(li *loopInfo, b *ssa.BasicBlock, st *State, pc stri
 	} else {
 		for k, t := range keys {
 			n := c.fresh("M_" + k)
-			c.declare(n, c.memSort(t))
-			c.memSorts[k] = c.memSort(t)
+			srt := c.memSort(t)
+			if strings.HasPrefix(k, "arr_") {
+				srt = c.arrSort(t)
+			}
+			c.declare(n, srt)
+			c.memSorts[k] = srt
 			st.mem[k] = n
 		}
 		e.bumpCtr(st)
@@ -409,6 +442,9 @@ func (e *Encoder) loopBack(li *loopInfo, from *ssa.BasicBlock, si int, st *State
 	env := e.envAt(st, h, over)
 	epc := and(pc, edgeCond(e, from, h, si))
 	for _, inv := range li.spec.Invariants {
+		if !e.clauseInMode(inv) {
+			continue
+		}
 		s, err := env.ElabBool(inv.E)
 		if err != nil {
 			e.errs = append(e.errs, fmt.Sprintf("loop %d invariant %q at back edge: %v", li.ord, inv.Text, err))
@@ -427,6 +463,9 @@ func (e *Encoder) panicObl(kind, text, pc, safe string) {
 	}
 	if kind == "nil" {
 		return // nil dereference is not part of the nopanic obligations (stated in DESIGN.md)
+	}
+	if !e.primary {
+		return
 	}
 	e.addObl(kind, text, pc, safe)
 }
@@ -683,10 +722,10 @@ func (e *Encoder) zeroFill(st *State, pc string, s Val) {
 	case *types.Struct, *types.Array:
 		return
 	}
-	key, srt := c.memKey(elem), c.memSort(elem)
+	key, srt := c.arrKey(elem), c.arrSort(elem)
 	m := st.get(c, key, srt)
 	z := e.zero(elem)
-	c.assume(implies(pc, fmt.Sprintf("(forall ((i!z %s)) (= (select %s (lelem (sbase %s) i!z)) %s))", c.idx(), m, s.S, z.S)))
+	st.mem[key] = c.define("M_"+key, srt, fmt.Sprintf("(store %s (sbase %s) ((as const (Array %s %s)) %s))", m, s.S, c.idx(), c.sortOf(elem), z.S))
 }
 
 func (e *Encoder) binop(in *ssa.BinOp, st *State, pc string) Val {
@@ -812,15 +851,15 @@ func (e *Encoder) convert(in *ssa.Convert, st *State, pc string) Val {
 		n := c.define("str", "Str", s)
 		c.assume(implies(pc, fmt.Sprintf("(= (str_len %s) (slen %s))", n, x.S)))
 		// content: str_at(n, i) == x[i]
-		m := st.get(c, "u8", c.memSort(types.Typ[types.Uint8]))
-		c.assume(implies(pc, fmt.Sprintf("(forall ((i!s %s)) (= (str_at %s i!s) (select %s (lelem (sbase %s) %s))))", c.idx(), n, m, x.S, c.binopIdx("+", fmt.Sprintf("(soff %s)", x.S), "i!s"))))
+		m := st.get(c, "arr_u8", c.arrSort(types.Typ[types.Uint8]))
+		c.assume(implies(pc, fmt.Sprintf("(forall ((i!s %s)) (! (= (str_at %s i!s) (select (select %s (sbase %s)) %s)) :pattern ((str_at %s i!s))))", c.idx(), n, m, x.S, c.binopIdx("+", fmt.Sprintf("(soff %s)", x.S), "i!s"), n)))
 		return Val{T: to, S: n}
 	case isByteSlice(to) && isString(from):
 		loc := e.alloc(st)
 		l := fmt.Sprintf("(str_len %s)", x.S)
 		v := Val{T: to, S: c.define("bs", "Slice", fmt.Sprintf("(mkslice %s %s %s %s)", loc, c.idxLit(0), l, l))}
-		m := st.get(c, "u8", c.memSort(types.Typ[types.Uint8]))
-		c.assume(implies(pc, fmt.Sprintf("(forall ((i!s %s)) (= (select %s (lelem %s i!s)) (str_at %s i!s)))", c.idx(), m, loc, x.S)))
+		m := st.get(c, "arr_u8", c.arrSort(types.Typ[types.Uint8]))
+		c.assume(implies(pc, fmt.Sprintf("(forall ((i!s %s)) (! (= (select (select %s %s) i!s) (str_at %s i!s)) :pattern ((select (select %s %s) i!s))))", c.idx(), m, loc, x.S, m, loc)))
 		return v
 	case isFloat(from) || isFloat(to):
 		fn := "fconv_" + sanitize(from.Underlying().String()) + "_" + sanitize(to.Underlying().String())
@@ -918,19 +957,19 @@ func (e *Encoder) ret(in *ssa.Return, st *State, pc string) {
 	retK := e.counts["$ret"]
 	e.counts["$ret"]++
 	for i, en := range e.fc.Ensures {
+		if !e.clauseInMode(en) {
+			continue
+		}
 		s, err := env.ElabBool(en.E)
 		if err != nil {
 			e.errs = append(e.errs, fmt.Sprintf("ensures %q: %v", en.Text, err))
 			continue
 		}
 		kind := fmt.Sprintf("post%d@ret%d", i, retK)
-		if en.Tag != "" {
-			kind = fmt.Sprintf("post %s@ret%d", en.Tag, retK)
-		}
 		o := e.addObl(kind, en.Text, pc, s)
 		o.Name = strings.TrimSuffix(o.Name, "#0")
 	}
-	if e.fc.HasMod {
+	if e.fc.HasMod && e.primary {
 		e.frameObl(st, pc, env)
 	}
 }
@@ -963,7 +1002,11 @@ func (e *Encoder) frameObl(st *State, pc string, env *Env) {
 		if cur == old {
 			continue
 		}
-		same = append(same, fmt.Sprintf("(= (select %s %s) (select %s %s))", cur, p, old, p))
+		if strings.HasPrefix(k, "arr_") {
+			same = append(same, fmt.Sprintf("(=> ((_ is lelem) %s) (= (select (select %s (ebase %s)) (eidx %s)) (select (select %s (ebase %s)) (eidx %s))))", p, cur, p, p, old, p, p))
+		} else {
+			same = append(same, fmt.Sprintf("(= (select %s %s) (select %s %s))", cur, p, old, p))
+		}
 	}
 	if len(same) == 0 {
 		return
@@ -1008,6 +1051,9 @@ func (e *Encoder) coveredBy(loc string, t types.Type, p string) string {
 		}
 		return or(cs...)
 	case *types.Array:
+		if scalarElem(u.Elem()) {
+			return fmt.Sprintf("(and ((_ is lelem) %s) (= (ebase %s) %s))", p, p, loc)
+		}
 		if u.Len() <= 64 {
 			var cs []string
 			for i := int64(0); i < u.Len(); i++ {
